@@ -23,7 +23,8 @@ SPEC = {
               "MsgSigner": "Signer", "SystemTime": "Rs.Time", "Duration": "Rs.Time", "SocketAddr": "Nat",
               "ServerStats": "(List Stats.Event)", "UdpSocket": "Gen.Sock", "Grease": "Gen.GreaseQ",
               "KmsProvider": "Envelope.Kms", "KmsError": "Unit", "ServerConfig": "Config.Cfg", "IpAddr": "Nat",
-              "SmallRng": "Gen.Tape", "Bernoulli": "Nat", "Pathologies": "Gen.Pathology"},
+              "SmallRng": "Gen.Tape", "Bernoulli": "Nat", "Pathologies": "Gen.Pathology",
+              "StatsQueue": "(List (List Gen.ClientStats))", "Instant": "Unit"},
     # translated structs (fields of other types must be listed under skip_fields)
     "structs": {
         "RtMessage": {},
@@ -36,6 +37,7 @@ SPEC = {
         "Grease": {},
         "AggregatedStats": {"skip_fields": ["empty_map"]},
         "PerClientStats": {},
+        "Reporter": {"skip_fields": ["next_update", "report_interval", "output_location"]},
         "MsgSigner": {},
         "MsgVerifier": {},
         "OnlineKey": {},
@@ -127,6 +129,9 @@ SPEC = {
         "ServerStats::add_classic_request": {"lean": "({self} ++ [({ kind := Stats.Kind.classicReq, addr := {0}, bytes := 0 } : Stats.Event)])", "mutates": True},
         "ServerStats::add_invalid_request": {"lean": "({self} ++ [({ kind := Stats.Kind.invalidReq, addr := {0}, bytes := 0 } : Stats.Event)])", "mutates": True},
         "Encoding::encode": {"lean": "(hexOf {0})"},
+        "StatsQueue::pop": {"lean": "({self}).tail", "res": "({self}).head?", "mutates": True},
+        "Instant::now": {"lean": "()", "ret_rust": "Instant"},
+        "Instant::duration_since": {"lean": "()"},
         "UdpSocket::send_to": {"lean": "(Gen.Sock.sendTo {self} {0} {1}).2", "res": "(Gen.Sock.sendTo {self} {0} {1}).1", "mutates": True, "result": True},
         "Grease::should_add_error": {"lean": "(Gen.GreaseQ.draw {self}).2", "res": "(Gen.GreaseQ.draw {self}).1", "mutates": True},
         "Grease::add_errors": {"lean": "(Gen.GreaseQ.addErrors {self} {0})", "monadic": True},
@@ -192,6 +197,13 @@ SPEC = {
                 "PerClientStats@ServerStats::total_health_checks", "PerClientStats@ServerStats::total_failed_send_attempts",
                 "PerClientStats@ServerStats::total_responses_sent", "PerClientStats@ServerStats::total_bytes_sent",
                 "PerClientStats@ServerStats::total_unique_clients", "PerClientStats@ServerStats::clear"]},
+        },
+        "Reporter": {
+            "file": "src/stats/reporter.rs",
+            "keep_externs": True,
+            "imports": ["StatsCore"],
+            # the queue shared with the workers (crossbeam ArrayQueue) is its content, oldest snapshot first
+            "functions": {"Reporter::receive_client_stats": {"fuel": ["self.source_queue.length + 1"]}},
         },
         "Grease": {
             "file": "src/grease.rs",
